@@ -83,6 +83,8 @@ type stuckOutcome struct {
 	Steps      []string `json:"steps"`
 	Failed     string   `json:"failed_step,omitempty"`
 	Trouble    string   `json:"trouble,omitempty"`
+	Errors     []string `json:"errors_received_by_the_author,omitempty"`
+	SetupMS    int64    `json:"setup_ms,omitempty"`
 }
 
 // roundTrip: x sends an addressed message to y's peer id; y must receive it.
@@ -98,7 +100,7 @@ func runStuckScenario(bin, scenario string, round int) stuckOutcome {
 	o := stuckOutcome{Scenario: scenario}
 	flags := append([]string{"--ws-idle-timeout", "10m"}, unlimited...)
 	if scenario == "expiry" {
-		flags = append(flags, "--session-timeout", "5s")
+		flags = append(flags, "--session-timeout", "12s")
 	}
 	srv, err := startServer(bin, nil, flags...)
 	if err != nil {
@@ -114,6 +116,13 @@ func runStuckScenario(bin, scenario string, round int) stuckOutcome {
 			o.Trouble = "dial " + peer + ": " + err.Error()
 			return nil
 		}
+		// the handshake answer comes before the server has entered the connection into the session; the peer list,
+		// the first thing the server sends on it, comes after
+		if !c.waitFor(stuckBound, func(e protocol.Envelope) bool { return e.Type == protocol.TypePeerList }) {
+			o.Trouble = "no peer list for " + peer
+			c.conn.Close()
+			return nil
+		}
 		return c
 	}
 	// the uninvolved session
@@ -124,8 +133,19 @@ func runStuckScenario(bin, scenario string, round int) stuckOutcome {
 	if o.Trouble != "" {
 		return o
 	}
+	// the expiry scenario: more peers in the stuck peer's session - the server closes them one after the other, in no
+	// particular order, and each of them must be closed whatever the position of the stuck one among them
+	var crowd []*wsClient
+	if scenario == "expiry" {
+		for k := 0; k < 6; k++ {
+			crowd = append(crowd, dial(codes[0], fmt.Sprintf("recvA%d", 3+k), "receiver"))
+		}
+		if o.Trouble != "" {
+			return o
+		}
+	}
 	defer func() {
-		for _, c := range []*wsClient{hb, rb, ha, r2} {
+		for _, c := range append([]*wsClient{hb, rb, ha, r2}, crowd...) {
 			if c != nil {
 				c.conn.Close()
 			}
@@ -137,6 +157,19 @@ func runStuckScenario(bin, scenario string, round int) stuckOutcome {
 		return o
 	}
 	defer stuck.Close()
+	// the handshake answer comes before the server has entered the connection into the session: wait until the host
+	// has been told that the peer joined (nobody reads on the stuck connection itself)
+	if !ha.waitFor(stuckBound, func(e protocol.Envelope) bool {
+		if e.Type != protocol.TypePeerJoined {
+			return false
+		}
+		var pj protocol.PeerJoined
+		e.DecodePayload(&pj)
+		return pj.Peer.PeerID == "recvA1"
+	}) {
+		o.Trouble = "the host was not told that the stuck peer joined"
+		return o
+	}
 	// fill the path to the stuck peer: addressed messages of ~48 KiB until well beyond what the kernel buffers and
 	// the connection's queue (256 messages) can hold; the queue drops what does not fit, so the flood itself is cheap
 	for i := 0; i < 420; i++ {
@@ -158,6 +191,11 @@ func runStuckScenario(bin, scenario string, round int) stuckOutcome {
 	if !step("marker_after_flood_routed", roundTrip(r2, ha, "hostA", 1)) {
 		return o
 	}
+	if scenario == "expiry" && time.Since(t0) > 10*time.Second {
+		// (a machine so busy that the session is about to end before the scenario is set up: no verdict)
+		o.Trouble = "setting the scenario up took longer than the session lives"
+		return o
+	}
 	// the stuck peer is connected all the while: the server may drop what its queue cannot hold, but it must not tell
 	// the author that the addressee does not exist
 	notFound := false
@@ -166,9 +204,13 @@ func runStuckScenario(bin, scenario string, round int) stuckOutcome {
 			var pe protocol.Error
 			if e.DecodePayload(&pe) == nil && strings.Contains(pe.Message, "recvA1") {
 				notFound = true
+				if len(o.Errors) < 3 {
+					o.Errors = append(o.Errors, fmt.Sprintf("%s: %s (in reply to %s)", pe.Code, pe.Message, e.MsgID))
+				}
 			}
 		}
 	}
+	o.SetupMS = time.Since(t0).Milliseconds()
 	step("connected_peer_never_reported_as_unknown", !notFound)
 	switch scenario {
 	case "reconnect":
@@ -203,14 +245,18 @@ func runStuckScenario(bin, scenario string, round int) stuckOutcome {
 			e.DecodePayload(&pl)
 			return pl.PeerID == "recvA2"
 		}))
-		r2 = dial(codes[0], "recvA2", "receiver")
-		if !step("rejoin_admitted", r2 != nil) {
+		again, _, rerr := dialWS(wsURL(srv, codes[0], "recvA2", "receiver"))
+		if !step("rejoin_admitted", rerr == nil && again != nil) {
+			r2 = nil
 			return o
 		}
+		r2 = again
+		// (the peer list is the first thing the server sends once the connection is entered into the session)
+		step("rejoined_peer_gets_peer_list", r2.waitFor(stuckBound, func(e protocol.Envelope) bool { return e.Type == protocol.TypePeerList }))
 		step("rejoined_peer_routable", roundTrip(ha, r2, "recvA2", 3))
 	case "expiry":
-		// both sessions were created at t0 and live 5 s; wait for the end of the stuck peer's session
-		for time.Since(t0) < 5500*time.Millisecond {
+		// both sessions were created at t0 and live 12 s; wait for the end of the stuck peer's session
+		for time.Since(t0) < 12500*time.Millisecond {
 			time.Sleep(50 * time.Millisecond)
 		}
 		end := time.Now().Add(stuckBound)
@@ -219,6 +265,18 @@ func runStuckScenario(bin, scenario string, round int) stuckOutcome {
 		}
 		step("host_disconnected_at_expiry", ha.isDead())
 		step("other_receiver_disconnected_at_expiry", r2.isDead())
+		crowdDead := func() bool {
+			for _, c := range crowd {
+				if !c.isDead() {
+					return false
+				}
+			}
+			return true
+		}
+		for time.Now().Before(end) && !crowdDead() {
+			time.Sleep(20 * time.Millisecond)
+		}
+		step("every_other_receiver_disconnected_at_expiry", crowdDead())
 		// the uninvolved session expires at the same time: its peers must be disconnected as well
 		for time.Now().Before(end) && !(hb.isDead() && rb.isDead()) {
 			time.Sleep(20 * time.Millisecond)
@@ -260,7 +318,7 @@ func StuckPeer(args []string) {
 	n := 0
 	trouble := 0
 	for round := 0; round < *rounds; round++ {
-		for _, sc := range []string{"reconnect", "leave", "expiry"} {
+		for _, sc := range []string{"reconnect", "leave", "expiry", "expiry"} {
 			n++
 			if (n-1)%*shards != *shard {
 				continue
